@@ -28,9 +28,12 @@ from harness.lib import cb, cl, cn, cs, cz
 PROP = "C19"
 IMPORTS = "Base Store"
 LABEL = "g"
-LOCS = ["default", "rec", "sub", "flat"]
-LOC_DIR = {"default": LABEL, "rec": LABEL, "sub": "sub", "flat": None}
-LOC_STEM = {"default": "picklestorage", "rec": "recovery", "sub": "fn", "flat": "fn"}
+LOCS = ["default", "rec", "sub", "flat", "dot"]
+LOC_DIR = {"default": LABEL, "rec": LABEL, "sub": "sub", "flat": None, "dot": "sub"}
+LOC_STEM = {"default": "picklestorage", "rec": "recovery", "sub": "fn", "flat": "fn", "dot": "gn.v2"}
+# the file name the user gives and the stem on disk differ when the name contains a dot: the back end forms its
+# paths with Path.with_suffix, which REPLACES the last suffix ("gn.v2" -> gn.pckl / gn.cpckl / gn.pckl.tmp ...)
+LOC_DISK = dict(LOC_STEM, dot="gn")
 DIRS = [LABEL, "sub"]
 USER = "user.txt"
 USERS = [LABEL, "sub", None]          # directories that may receive a foreign file
@@ -320,7 +323,7 @@ def _fname(loc, root):
         return None
     if loc == "rec":
         return Path(root) / LABEL / "recovery"      # an absolute Path, like the recovery file
-    return {"sub": "sub/fn", "flat": "fn"}[loc]
+    return {"sub": "sub/fn", "flat": "fn", "dot": "sub/gn.v2"}[loc]
 
 
 def _exc(e):
@@ -374,7 +377,7 @@ def _codes(uni):
     for i, loc in enumerate(locs):
         for j, suffix in enumerate(SUFFIXES):
             d = LOC_DIR[loc]
-            files[(d + "/" if d else "") + LOC_STEM[loc] + suffix] = 10 * (i + 1) + j
+            files[(d + "/" if d else "") + LOC_DISK[loc] + suffix] = 10 * (i + 1) + j
     return files, dirs
 
 
@@ -413,7 +416,7 @@ def _snapshot(root, uni):
         stem = LOC_STEM[loc]
         row = []
         for suffix in (".pckl", ".cpckl", ".pckl.tmp", ".cpckl.tmp"):
-            p = d / (stem + suffix)
+            p = d / (LOC_DISK[loc] + suffix)
             known_paths.add(str(p))
             row.append(_status(p))
         be = PickleStorage()
@@ -629,7 +632,7 @@ def _rand_save(rng, loc, v, crash_p=0.45):
 
 def _rand_case(rng):
     locs = rng.choice([["default"], ["default"], ["default", "rec"], ["sub"], ["flat"], ["default", "flat"],
-                       ["rec"], ["sub", "flat"], LOCS])
+                       ["rec"], ["sub", "flat"], ["dot"], ["dot", "sub"], LOCS])
     n = rng.choice([2, 3, 4, 5, 6, 7, 8, 9])
     ops, v = [], 0
     last_cls = {}
